@@ -1037,8 +1037,8 @@ def _parsers(repo, rep):
     rep.check("context = context or 'local'" in t, "R01.8", f.qualname,
               "without a keyword a definition is local",
               construct="define-default", where=L.where(f))
-    rep.check("if name.startswith('('): names = [n.strip() for n in "
-              "name.strip('()').split(',')] else: names = (name,)" in t,
+    rep.check("names = [n.strip() for n in name.strip('()').split(',')] "
+              "if name.startswith('(') else (name,)" in t,
               "R01.8", f.qualname, "a parenthesised name list defines "
               "several names, a bare name one", construct="define-names",
               where=L.where(f))
